@@ -196,6 +196,40 @@ var c05Value = hx.Define("c05.value", func(c *c05ValueCase, s *hx.Sub) *hx.Viola
 	return nil
 })
 
+// a string value is emitted exactly also when the neighbouring tag or object carries a hyphen:
+// whitespace control is about literal text, never about a value
+
+type c05EdgeCase struct {
+	V    string `json:"v"`
+	Form int    `json:"form"`
+}
+
+var c05EdgeForms = []string{
+	"[{{ v }}{{- x }}]", "[{{ x -}}{{ v }}]", "[{{ v }}{%- assign q = 1 %}]", "[{% assign q = 1 -%}{{ v }}]",
+	"[{{- v -}}]", "{% for i in (1..2) %}<{{ v }}{%- if true -%}{{ v }}{%- endif -%}>{% endfor %}",
+	"[{{ x -}}{{ v }}{{- x }}]", "[{% if true -%}{{ v }}{%- endif %}]", "[{{ v }}{%- comment %} c {% endcomment -%}{{ v }}]",
+}
+
+var c05Edge = hx.Define("c05.value-beside-hyphen", func(c *c05EdgeCase, s *hx.Sub) *hx.Violation {
+	src := c05EdgeForms[c.Form%len(c05EdgeForms)]
+	o := hx.Render(src, map[string]any{"v": c.V, "x": "X"})
+	if o.Panic != nil {
+		return hx.V("panic@"+o.Panic.Site, "%s with v=%q: %v", src, c.V, o.Panic)
+	}
+	// expected: every {{ v }} prints v exactly; hyphens only ever touch literal text (there is none next to them here)
+	want := hx.Render(strings.NewReplacer("{{-", "{{", "-}}", "}}", "{%-", "{%", "-%}", "%}").Replace(src), map[string]any{"v": c.V, "x": "X"})
+	if !o.OK() || !want.OK() || o.Out != want.Out {
+		return hx.V("c05:value-trimmed", "%s with v = %q renders %q; without the hyphens (no literal text is adjacent to any of them) it renders %q: the value was not emitted exactly", src, c.V, o.Out, want.Out)
+	}
+	if strings.TrimSpace(c.V) != c.V {
+		s.NTKey(src + c.V)
+	}
+	if s.WantSample() {
+		s.Sample(map[string]any{"template": src, "v": c.V, "output": o.Out})
+	}
+	return nil
+})
+
 var c05Sigma = []string{"{", "}", "%", "-", "\"", " ", "\n", "a"}
 
 func TestC05(t *testing.T) {
@@ -297,6 +331,15 @@ func TestC05(t *testing.T) {
 			t.Fatalf("%s", v.Message)
 		}
 	})
+
+	edge := c05Edge.On(col, "exhaustive: nine shapes in which an object printing v stands directly next to a hyphenated object or tag (no literal text between them), x values v with white space at either edge (spaces, tabs, newlines, NBSP, only white space, none); metamorphic oracle: same output as the template without the hyphens, i.e. v is emitted exactly. Non-trivial: v has white space at an edge; distinct by shape+value", true)
+	for fi := range c05EdgeForms {
+		for vi, v := range []string{"  val  ", "val", " \tlead", "trail\n\n", " ", "", "\u00a0nb\u00a0", "a b", "\n"} {
+			if env.Mine(fi*16 + vi) {
+				edge.Run(&c05EdgeCase{V: v, Form: fi})
+			}
+		}
+	}
 
 	val := c05Value.On(col, "rapid: string values - arbitrary bytes, valid UTF-8, HTML/URL specials, delimiter text ({{ x }}, {% raw %}), white space at the edges, up to 64 KiB - printed by an object directly and after a nested lookup, assign and capture; oracle: emitted exactly. Non-trivial: non-empty; distinct by value", false)
 	vfrag := []string{"<", ">", "&", "\"", "'", "{{ x }}", "{% raw %}", "%}", " ", "\n", "\t", "é", "😀", "\x00", "\xff\xfe", "&amp;", "%20", "\\", "a"}
